@@ -260,6 +260,14 @@ func (g *gen) features(m *Module) {
 			c := cands[t.Draw(len(cands))]
 			f.Add(S("if-feature", g.ref(m, c.m, c.n)))
 			g.set.Probes["feature_chain"] = true
+			// a second (and third) if-feature: diamonds in the feature graph
+			for len(cands) > 1 && t.Rare(3) {
+				c2 := cands[t.Draw(len(cands))]
+				if c2 != c {
+					f.Add(S("if-feature", g.ref(m, c2.m, c2.n)))
+					g.set.Probes["feature_with_several_if_features"] = true
+				}
+			}
 		}
 		m.Root.Add(f)
 		if m.Sub && !t.Rare(16) {
